@@ -66,6 +66,7 @@ pub fn candidates(seed: u64) -> Vec<Value> {
     let mut nx = |n: u64| { s = s.wrapping_mul(6364136223846793005).wrapping_add(1442695040888963407); (s >> 33) % n };
     out.push(json!({"case": "dtree_cnf", "cnf": [[1, -2], [2, 3], [3, 4]], "order": [0, 1, 2, 3]}));
     // independent components (the final composition in from_cnf) and labels that occur in no clause
+    out.push(json!({"case": "dtree_cnf", "cnf": [[1, 3], [-2, 3], [-3, 4]], "order": [0, 1]}));
     for cnf in [json!([[1], [2]]), json!([[1, 2], [3, 4]]), json!([[1, 2], [3, 4], [5]]), json!([[1, -2], [2, 3], [5, 6], [-6, 7], [9]]), json!([[2], [4]])] {
         let mx = cnf.as_array().unwrap().iter().flat_map(|c| c.as_array().unwrap().iter().map(|l| l.as_i64().unwrap().unsigned_abs())).max().unwrap();
         let order: Vec<u64> = (0..mx).collect();
@@ -83,7 +84,15 @@ pub fn candidates(seed: u64) -> Vec<Value> {
         let mx = cnf.iter().flat_map(|c| c.iter().map(|l| l.unsigned_abs())).max().unwrap_or(1);
         let mut order: Vec<u64> = (0..mx).collect();
         for i in (1..mx as usize).rev() { let j = nx(i as u64 + 1) as usize; order.swap(i, j); }
-        out.push(json!({"case": "dtree_cnf", "cnf": cnf, "order": order}));
+        out.push(json!({"case": "dtree_cnf", "cnf": cnf, "order": order.clone()}));
+        // an elimination order over a proper prefix of the labels only: the subtrees left over at the end still share
+        // the variables that were never eliminated
+        if k % 3 == 0 && mx >= 2 {
+            let keep = 1 + nx(mx - 1);
+            let mut part: Vec<u64> = (0..keep).collect();
+            for i in (1..keep as usize).rev() { let j = nx(i as u64 + 1) as usize; part.swap(i, j); }
+            out.push(json!({"case": "dtree_cnf", "cnf": cnf, "order": part}));
+        }
     }
     out
 }
